@@ -23,4 +23,10 @@ WS1 == {w1}
 WS2 == {w1, w2}
 WS3 == {w1, w2, w3}
 Sym == Permutations(Clients) \cup Permutations(Workers)
+
+\* sentTo is a pure history (no action reads it; every property counts occurrences): states that differ
+\* only in the ORDER in which a client was written to are identified
+BagOf(s) == [x \in {s[i] : i \in DOMAIN s} |-> Cardinality({i \in DOMAIN s : s[i] = x})]
+MCView == <<cst, sent, pings, net, pending, incoming, streams, lpc, keys, cur, q, wst, wtask, outgoing, ext,
+            shut, [c \in Clients |-> BagOf(sentTo[c])], rxn, dseq, iseq, admitted, tmo, flog>>
 =============================================================================
